@@ -11,6 +11,9 @@ func init() {
 	vHarnesses["H_C04_catch"] = H_C04_catch
 	vHarnesses["H_C09_history"] = H_C09_history
 	vHarnesses["H_C11_allsol"] = H_C11_allsol
+	vHarnesses["H_C19_cursor2"] = H_C19_cursor2
+	vHarnesses["H_C19_cursor3"] = H_C19_cursor3
+	vHarnesses["H_C19_out"] = H_C19_out
 	vHarnesses["H_C20_load"] = H_C20_load
 	vHarnesses["H_C17_dcg"] = H_C17_dcg
 	vHarnesses["H_C16_rel"] = H_C16_rel
@@ -132,4 +135,21 @@ func H_C17_dcg(inst int) {
 func H_C20_load(inst int) {
 	i := newFull()
 	engine.VH_C20(&i.VM, inst)
+}
+
+// H_C19_cursor2/3: sequences of 2 / 3 input operations in one conjunction on a stream over symbolic bytes.
+func H_C19_cursor2(inst int) {
+	i := newFull()
+	engine.VH_C19(&i.VM, inst, 2)
+}
+
+func H_C19_cursor3(inst int) {
+	i := newFull()
+	engine.VH_C19(&i.VM, inst, 3)
+}
+
+// H_C19_out: output goals reach the sink completely and in program order.
+func H_C19_out(inst int) {
+	i := newFull()
+	engine.VH_C19_out(&i.VM, inst)
 }
